@@ -708,6 +708,12 @@ def c17_11(ctx):
             if isinstance(x, ast.Subscript) and isinstance(x.value, ast.Name) and isinstance(x.slice, ast.Constant) and x.slice.value == 0:
                 key = ast.unparse(x)
     if key is None:
+        # the cut is also decided by evaluation over every length × leading byte on both sides of 0x80 (C17.20); this interval rule is the fallback
+        cells = [r for r in c17_20(ctx) if r.anchor == spec]
+        if cells and all(r.status == "ok" for r in cells):
+            return [ctx.ok(spec, "00-prefixed mantissa exactly for a leading byte >= 0x80: decided by the GetCompact cells (C17.20); the test is not in the `x[0]` form this rule reads", fn, mod, key="sign-cut")]
+        if cells and any(r.status == "violation" for r in cells):
+            return [ctx.bad(spec, "bits differ from GetCompact (see C17.20)", fn, mod, key="sign-cut")]
         return [ctx.err(spec, "test on the leading byte not found", fn, mod)]
     ra = Ranges(ctx.repo, mod, fn, {key: ISet.range(0, 255)}, types={key: ISet.range(0, 255)})
     padded = ISet.empty()
@@ -904,7 +910,122 @@ def c17_19(ctx):
     return [ctx.ok(spec, "valid exactly when every header has work and links to its predecessor (%d messages of 1..14 headers)" % cells, fn, mod, key="headers-verdict")]
 
 
+def c17_20(ctx):
+    """target -> compact bits equals Bitcoin Core's arith_uint256::GetCompact for every size of target: target_to_bits looks at the target only
+    through its byte length and the top bit of its first byte, so it is evaluated for every length 0..32 (0 = the target zero) × first byte
+    {01, 7f, 80, ff} × two tails; the result is always 4 bytes (coefficient left-aligned for targets of fewer than three bytes).  Also
+    calculate_new_bits for previous targets so small that the quarter clamp reaches zero"""
+    from sa.cells import Evaluator, Raised, Undecided
+    spec = "helper:target_to_bits"
+    mod, fn = rl.get(ctx, spec)
+
+    def get_compact(t):
+        size = (t.bit_length() + 7) // 8
+        compact = t << 8 * (3 - size) if size <= 3 else t >> 8 * (size - 3)
+        if compact & 0x00800000:
+            compact >>= 8
+            size += 1
+        return (compact | size << 24).to_bytes(4, "little")
+    n = 0
+    for length in range(0, 33):
+        for first in (0x01, 0x7F, 0x80, 0xFF):
+            for tail in (0x5A, 0x00):
+                if length == 0 and (first, tail) != (0x01, 0x5A):
+                    continue
+                n += 1
+                t = int.from_bytes(bytes([first]) + bytes((tail + i) & 255 if tail else 0 for i in range(length - 1)), "big") if length else 0
+                try:
+                    r = Evaluator(ctx.repo).call(spec, [t])
+                except Raised as x:
+                    return [ctx.bad(spec, "the target %#x (%d significant bytes) raises %s; GetCompact gives %s" % (t, length, x.name, get_compact(t).hex()), fn, mod, key="get-compact")]
+                except Undecided as u:
+                    return [ctx.err(spec, "target_to_bits not evaluable: %s" % u, fn, mod)]
+                if r != get_compact(t):
+                    return [ctx.bad(spec, "the target %#x (%d significant bytes, first byte %02x) is written as bits %s, Bitcoin Core's GetCompact gives %s" % (
+                        t, length, first, r.hex() if isinstance(r, bytes) else r, get_compact(t).hex()), fn, mod, key="get-compact")]
+    ctx.count("cells", n)
+    out = [ctx.ok(spec, "%d (length 0..32, first byte, tail) cells equal GetCompact, always 4 bytes" % n, fn, mod, key="get-compact")]
+    spec2 = "helper:calculate_new_bits"
+    mod2, fn2 = rl.get(ctx, spec2)
+    TW = 60 * 60 * 24 * 14
+    m = 0
+    for prev in (bytes.fromhex("00000101"), bytes.fromhex("00000301"), bytes.fromhex("00ff0002"), bytes.fromhex("ffff7f03"), bytes.fromhex("12340004")):
+        for td in (0, TW // 4, TW // 2, TW, TW * 4, TW * 40):
+            m += 1
+            e, c = prev[3], int.from_bytes(prev[:3], "little")
+            target = c * 256 ** (e - 3) if e >= 3 else c >> 8 * (3 - e)
+            want = get_compact(target * min(max(td, TW // 4), TW * 4) // TW)
+            try:
+                r = Evaluator(ctx.repo).call(spec2, [prev, td])
+            except Raised as x:
+                out.append(ctx.bad(spec2, "previous bits %s, time differential %d: raises %s; the consensus formula gives %s" % (prev.hex(), td, x.name, want.hex()), fn2, mod2, key="retarget-small"))
+                return out
+            except Undecided as u:
+                out.append(ctx.err(spec2, "calculate_new_bits not evaluable: %s" % u, fn2, mod2))
+                return out
+            if r != want:
+                out.append(ctx.bad(spec2, "previous bits %s, time differential %d: new bits %s, the consensus formula gives %s" % (prev.hex(), td, r.hex() if isinstance(r, bytes) else r, want.hex()),
+                                   fn2, mod2, key="retarget-small"))
+                return out
+    ctx.count("cells", m)
+    out.append(ctx.ok(spec2, "%d (tiny previous target, time differential) cells equal the consensus formula, the zero target included" % m, fn2, mod2, key="retarget-small"))
+    return out
+
+
+
+def c17_21(ctx):
+    """the proof-of-work test on compact targets consensus never satisfies: CheckProofOfWork refuses a header whose bits decode to a negative
+    number (bit 0x00800000 of the coefficient set), to zero, or to more than 256 bits, whatever its hash.  Block.check_pow is evaluated, with
+    the header hash as a stand-in (a very small hash, which is below every positive target), on bits with the sign bit set / clear × exponents
+    1..34 × coefficients, against CheckProofOfWork without the per-network limit (the Block class does not know its network)"""
+    from sa.cells import Evaluator, Obj, Raised, Undecided
+    spec = "block:Block.check_pow"
+    mod, fn = rl.get(ctx, spec)
+    tiny = (1).to_bytes(32, "little")
+
+    def consensus(bits):
+        size, word = bits[3], int.from_bytes(bits[:3], "little") & 0x7FFFFF
+        negative_bit = bits[2] & 0x80
+        target = word >> 8 * (3 - size) if size <= 3 else word << 8 * (size - 3)
+        if size <= 3:
+            word >>= 8 * (3 - size)
+        negative = word != 0 and bool(negative_bit)
+        overflow = word != 0 and (size > 34 or (word > 0xFF and size > 33) or (word > 0xFFFF and size > 32))
+        if negative or target == 0 or overflow:
+            return False
+        return 1 <= target
+
+    def opaque(name, args, kw):
+        if name == "hash256":
+            return tiny
+        return NotImplemented
+    n = 0
+    for coef in (0x00FFFF, 0x7FFFFF, 0x800000, 0x80FFFF, 0xFFFFFF, 0x000000, 0x000001, 0x010000):
+        for e in list(range(0, 36)):
+            n += 1
+            bits = coef.to_bytes(3, "little") + bytes([e])
+            me = Obj("block", "Block", {"version": 1, "prev_block": bytes(32), "merkle_root": bytes(32), "timestamp": 0, "bits": bits, "nonce": bytes(4)})
+            try:
+                r = Evaluator(ctx.repo, opaque=opaque, method_hooks={("Block", "serialize"): lambda o: b"HEADER"}).call(spec, [], self_obj=me)
+            except Raised as x:
+                return [ctx.bad(spec, "check_pow raises %s for bits %s" % (x.name, bits.hex()), fn, mod, key="pow-invalid-target")]
+            except Undecided as u:
+                return [ctx.err(spec, "check_pow not evaluable: %s" % u, fn, mod)]
+            want = consensus(bits)
+            if bool(r) != want:
+                why = "negative (sign bit of the coefficient set)" if bits[2] & 0x80 else ("zero" if not want and int.from_bytes(bits[:3], "little") * 256 ** max(e - 3, 0) >> 8 * max(3 - e, 0) == 0 else "wider than 256 bits")
+                if want:
+                    return [ctx.bad(spec, "a header with bits %s and hash 1 is refused although the target is positive and above the hash" % bits.hex(), fn, mod, key="pow-invalid-target")]
+                return [ctx.bad(spec, "a header with bits %s is accepted for (nearly) any hash: the compact target is %s, which consensus CheckProofOfWork never accepts" % (bits.hex(), why),
+                                fn, mod, key="pow-invalid-target")]
+    ctx.count("cells", n)
+    return [ctx.ok(spec, "%d (coefficient, exponent 0..35) cells: negative, zero and overflowing compact targets are never satisfied, every positive one is by hash 1" % n, fn, mod, key="pow-invalid-target")]
+
+
+
 OBLIGATIONS = [
+    ("C17.21", "CELLS invalid compact target", c17_21),
+    ("C17.20", "CELLS GetCompact", c17_20),
     ("C17.18", "CELLS difficulty (bounded)", c17_18),
     ("C17.19", "CELLS headers verdict", c17_19),
     ("C17.17", "CELLS compact target (bounded)", c17_17),
